@@ -25,3 +25,24 @@ S(id="API.err.message", props=["C15"], spec="api.spec.c", harness="h_error_messa
   functions=["yaep_error_message"], what="accessor returns the message buffer of the object, assigns nothing")
 
 PROPERTY_META = {}
+
+# ---------------- C19: hashtab.c ----------------
+HT = dict(spec="hashtab.spec.c", params={"quick": {"CAP": 64}, "thorough": {"CAP": 1024}})
+S(id="HT.hpn", props=["C19"], harness="h_hpn", mode="U", loops=True, n_loops=2, enforce=["higher_prime_number/hpn_c"],
+  functions=["higher_prime_number"], what="result is odd (partial correctness; '> n' and '<= 2n+3' are the assumed Bertrand clause, N-checked exhaustively in HT.hpn.native)", **HT)
+S(id="HT.create", props=["C19", "C12"], harness="h_create", mode="U", loops=True, n_loops=1, enforce=["create_hash_table/create_c"],
+  replace=["higher_prime_number/hpn_assumed_c"], functions=["create_hash_table"],
+  what="fresh table, every slot EMPTY (ghost index), counters 0, callbacks and allocator stored", **HT)
+S(id="HT.empty", props=["C19", "C12"], harness="h_empty", mode="U", loops=True, n_loops=1, enforce=["empty_hash_table/empty_c"],
+  functions=["empty_hash_table"], what="every slot EMPTY, counters 0, nothing else assigned", **HT)
+S(id="HT.delete", props=["C19", "C12", "C14"], harness="h_delete", mode="L", enforce=["delete_hash_table/delete_c"],
+  functions=["delete_hash_table"], what="both blocks released exactly once", **HT)
+S(id="HT.find", props=["C19", "C12"], harness="h_find", mode="U", loops=True, n_loops=1, canaries=2, enforce=["find_hash_table_entry/find_c"],
+  functions=["find_hash_table_entry"], weight=5,
+  what="in-bounds aligned result, never a DELETED slot, non-empty result was accepted by eq, count+1 iff reserved, an arbitrary other slot unchanged (deleted slot reused is cleared)", **HT)
+S(id="HT.remove", props=["C19", "C12"], harness="h_remove", mode="L", enforce=["remove_element_from_hash_table_entry/remove_c"],
+  replace=["find_hash_table_entry/find_for_remove_c"], functions=["remove_element_from_hash_table_entry"],
+  what="found slot becomes DELETED, deleted count + 1, every other slot unchanged", **HT)
+S(id="HT.size", props=["C19"], harness="h_size", mode="L", enforce=["hash_table_size/size_c"], functions=["hash_table_size"], what="accessor", **HT)
+S(id="HT.elements", props=["C19"], harness="h_elements", mode="L", enforce=["hash_table_elements_number/elements_c"], functions=["hash_table_elements_number"],
+  what="elements = inserted - deleted", **HT)
